@@ -19,7 +19,7 @@ Import ListNotations.
 
 (* One dict per node, nested like the tree and in child order; "data" holds the
    mapper's value [enc i], "data_id" is present exactly when the node's id is
-   not hash(data) and then holds it, "children" is present exactly when the
+   not hash(data) ([custom_id]: data unhashable – D30b –, or id <> hash) and then holds it, "children" is present exactly when the
    node has children.  For every serialisation mapper that sets "data" to
    [enc] of the node, leaves "data_id" alone and does not invent "children". *)
 Theorem C14_mirror : forall (enc : info -> jv) (sm : smapper),
@@ -33,11 +33,13 @@ Theorem C14_mirror_plain : forall f : forest,
 Proof. exact (to_dict_list_mirrors enc_name sm_none sm_none_ok). Qed.
 Print Assumptions C14_mirror_plain.
 
-(* ... and the dict has no other entries, in this order *)
+(* ... and the dict has no other entries, in this order ([opt_id]: the entry the
+   property asks for – the id when data is unhashable or the id differs from
+   hash(data), nothing otherwise) *)
 Theorem C14_plain_dict_exact : forall id i ch,
   to_dict sm_none (T id i ch) =
   JDict ([(k_data, JStr (i_name i))]
-         ++ (if did_eqb (i_did i) (DInt (i_hash i)) then [] else [(k_data_id, jv_of_did (i_did i))])
+         ++ (match opt_id i with Some v => [(k_data_id, v)] | None => [] end)
          ++ (match ch with [] => [] | _ => [(k_children, JList (map (to_dict sm_none) ch))] end)).
 Proof. exact to_dict_plain_exact. Qed.
 Print Assumptions C14_plain_dict_exact.
@@ -72,15 +74,17 @@ Print Assumptions C14_harness_mappers.
 
 (* the keys written by Node.to_dict and read by Node.from_dict in /repo (lifted
    from the source text by gen_facts.py on every run) are the keys of the model,
-   the source's data_id test is [self._data_id != hash(self._data)], and
-   Node.to_dict is the statement sequence the model mirrors (dict literal; id
-   test; call_mapper; children added after the mapper; return);
+   the source's data_id test is [self._data_id == hash(self._data)] guarded
+   against TypeError (shape 2; shape 1 is the unguarded test of D30b), and
+   Node.to_dict is the statement sequence the model mirrors (dict literal;
+   guarded default test; id entry; call_mapper; children added after the
+   mapper; return);
    from_dict's optional "node_id" entry is never written by to_dict *)
 Theorem C14_source_keys :
   TO_DICT_KEYS = [k_data; k_data_id; k_children] /\
   FROM_DICT_KEYS = [k_data; k_data_id; k_node_id; k_children] /\
-  TO_DICT_ID_TEST_IS_NE_HASH = true /\
-  TO_DICT_SKELETON = [0; 1; 2; 3; 4]%Z.
+  TO_DICT_ID_TEST = 2%Z /\
+  TO_DICT_SKELETON = [0; 5; 1; 2; 3; 4]%Z.
 Proof. exact source_keys_ok. Qed.
 Print Assumptions C14_source_keys.
 
@@ -128,7 +132,7 @@ Print Assumptions C14_iso_consequences.
 (* from_dict on ANY input (hand-written, malformed, any mapper, any
    calc_data_id of the target tree): if it returns a tree, no two siblings in
    it share a data_id *)
-Theorem C14_from_dict_safe : forall (dd : dmapper) (calc : info -> did) (next : nat) (obj : list jv) (f : forest),
+Theorem C14_from_dict_safe : forall (dd : dmapper) (calc : info -> res did) (next : nat) (obj : list jv) (f : forest),
   from_dict dd calc next obj = inl f -> sibuniq_f f.
 Proof. exact from_dict_safe. Qed.
 Print Assumptions C14_from_dict_safe.
@@ -137,7 +141,7 @@ Print Assumptions C14_from_dict_safe.
    and ordered like the items; each node's data is what the deserialisation step
    makes of the item's "data", its data_id the item's "data_id" entry or, without
    one, calc_data_id of that data (relational spec [built]) *)
-Theorem C14_from_dict_mirrors_input : forall (dd : dmapper) (calc : info -> did) (next : nat) (obj : list jv) (f : forest),
+Theorem C14_from_dict_mirrors_input : forall (dd : dmapper) (calc : info -> res did) (next : nat) (obj : list jv) (f : forest),
   from_dict dd calc next obj = inl f -> Forall2 (built dd calc) (map parse obj) f.
 Proof. exact from_dict_built. Qed.
 Print Assumptions C14_from_dict_mirrors_input.
@@ -162,7 +166,7 @@ Print Assumptions C14_node_from_dict_safe.
    readable, data_id entry usable), from_dict succeeds iff no two sibling items
    have one effective id (the data_id entry or, without one, calc_data_id of the
    data), and the only error it can raise is UniqueConstraintError *)
-Theorem C14_from_dict_refusal : forall (dd : dmapper) (calc : info -> did) (next : nat) (obj : list jv),
+Theorem C14_from_dict_refusal : forall (dd : dmapper) (calc : info -> res did) (next : nat) (obj : list jv),
   Forall (wf_pt dd calc) (map parse obj) ->
   ((exists f, from_dict dd calc next obj = inl f) <-> uniq_items dd calc obj) /\
   (forall e, from_dict dd calc next obj = inr e -> e = E_UNIQUE).
